@@ -102,7 +102,7 @@ struct Feel {
   even: Evaluator,
 }
 
-fn prep(text: &str) -> Evaluator {
+pub(crate) fn prep(text: &str) -> Evaluator {
   let names: BTreeSet<String> = ["a", "b"].iter().map(|s| s.to_string()).collect();
   let ps = crate::rval::parse_scope_of(&names);
   let node = dmntk_feel_parser::parse_expression(&ps, text, false).unwrap_or_else(|e| panic!("`{}` does not parse: {}", text, e));
@@ -133,7 +133,7 @@ fn feel() -> Feel {
   }
 }
 
-fn scope2(a: &FeelNumber, b: Option<&FeelNumber>) -> Scope {
+pub(crate) fn scope2(a: &FeelNumber, b: Option<&FeelNumber>) -> Scope {
   let mut c = FeelContext::default();
   c.set_entry(&Name::from("a"), Value::Number(*a));
   if let Some(b) = b {
